@@ -51,35 +51,35 @@ type StreamEvent struct {
 
 // Net is the simulated network.
 type Net struct {
-	mu        sync.Mutex
-	eps       map[string]*Endpoint // by ip:port
-	rng       *rand.Rand
-	Policy    func(n *Net, from, to string, buf []byte) Fate // nil = deliver with DefaultDelay
-	StreamLat func(from, to string) time.Duration              // nil = 0
-	StreamCut func(c *Conn, dialerSide bool) int64             // -1 = no cut; called at dial time per direction
-	Distinct  bool                                             // force distinct delivery instants per destination
-	lastDeliv map[string]time.Time
-	blocked   map[[2]string]bool // directed pair blocked (partition)
-	packets   []*PacketEvent
-	streams   []*StreamEvent
-	OnPacket  []func(ev *PacketEvent)
-	OnDeliver []func(to string, ev *PacketEvent)
-	OnStream  []func(ev *StreamEvent)
-	conns     []*Conn
-	connSeq   int
-	KeepTrace bool
-	DefaultDelay time.Duration
+	mu            sync.Mutex
+	eps           map[string]*Endpoint // by ip:port
+	rng           *rand.Rand
+	Policy        func(n *Net, from, to string, buf []byte) Fate // nil = deliver with DefaultDelay
+	StreamLat     func(from, to string) time.Duration            // nil = 0
+	StreamCut     func(c *Conn, dialerSide bool) int64           // -1 = no cut; called at dial time per direction
+	Distinct      bool                                           // force distinct delivery instants per destination
+	lastDeliv     map[string]time.Time
+	blocked       map[[2]string]bool // directed pair blocked (partition)
+	packets       []*PacketEvent
+	streams       []*StreamEvent
+	OnPacket      []func(ev *PacketEvent)
+	OnDeliver     []func(to string, ev *PacketEvent)
+	OnStream      []func(ev *StreamEvent)
+	conns         []*Conn
+	connSeq       int
+	KeepTrace     bool
+	DefaultDelay  time.Duration
 	DialFailDelay time.Duration // how long a dial to an unreachable address takes (0 = caller's timeout)
 }
 
 func NewNet(seed int64) *Net {
 	return &Net{
-		eps:       map[string]*Endpoint{},
-		rng:       rand.New(rand.NewSource(seed)),
-		lastDeliv: map[string]time.Time{},
-		blocked:   map[[2]string]bool{},
-		Distinct:  true,
-		KeepTrace: true,
+		eps:          map[string]*Endpoint{},
+		rng:          rand.New(rand.NewSource(seed)),
+		lastDeliv:    map[string]time.Time{},
+		blocked:      map[[2]string]bool{},
+		Distinct:     true,
+		KeepTrace:    true,
 		DefaultDelay: 200 * time.Microsecond,
 	}
 }
@@ -158,11 +158,11 @@ type Endpoint struct {
 	dead     atomic.Bool // crashed: black hole
 	hung     atomic.Bool // hung process: accepts connections, never reads
 	// counters
-	WritesOK      atomic.Int64
-	WritesClosed  atomic.Int64 // attempts after Shutdown
-	DialsClosed   atomic.Int64
-	DroppedFull   atomic.Int64
-	WriteErr      func(buf []byte, to memberlist.Address) error // fault injection: returned instead of sending
+	WritesOK     atomic.Int64
+	WritesClosed atomic.Int64 // attempts after Shutdown
+	DialsClosed  atomic.Int64
+	DroppedFull  atomic.Int64
+	WriteErr     func(buf []byte, to memberlist.Address) error // fault injection: returned instead of sending
 }
 
 var _ memberlist.NodeAwareTransport = (*Endpoint)(nil)
@@ -196,7 +196,7 @@ func (e *Endpoint) FinalAdvertiseAddr(string, int) (net.IP, int, error) {
 }
 
 func (e *Endpoint) PacketCh() <-chan *memberlist.Packet { return e.packetCh }
-func (e *Endpoint) StreamCh() <-chan net.Conn          { return e.streamCh }
+func (e *Endpoint) StreamCh() <-chan net.Conn           { return e.streamCh }
 
 func (e *Endpoint) Shutdown() error {
 	e.closed.Store(true)
@@ -343,34 +343,50 @@ func (e *Endpoint) DialAddressTimeout(a memberlist.Address, timeout time.Duratio
 		e.DialsClosed.Add(1)
 		return nil, &net.OpError{Op: "dial", Net: "tcp", Err: net.ErrClosed}
 	}
-	n.mu.Lock()
-	dst := n.eps[a.Addr]
-	blocked := n.blocked[[2]string{e.Addr, a.Addr}] || n.blocked[[2]string{a.Addr, e.Addr}]
-	n.mu.Unlock()
-	if dst != nil && dst.hung.Load() && !blocked {
+	// Like a kernel, retransmit the SYN with exponential backoff (1 s, 2 s, 4 s, ...)
+	// until the peer becomes reachable or the caller's timeout expires.
+	var dst *Endpoint
+	start := time.Now()
+	backoff := time.Second
+	for {
 		n.mu.Lock()
-		n.connSeq++
-		id := n.connSeq
+		dst = n.eps[a.Addr]
+		blocked := n.blocked[[2]string{e.Addr, a.Addr}] || n.blocked[[2]string{a.Addr, e.Addr}]
 		n.mu.Unlock()
-		c := newConnPair(n, id, e.Addr, dst.Addr)
-		n.mu.Lock()
-		n.conns = append(n.conns, c)
-		n.mu.Unlock()
-		return c.Dialer, nil // nobody will ever read the other end
-	}
-	if dst != nil && dst.closed.Load() && !dst.dead.Load() && !blocked {
-		// host up, listener gone: connection refused at once
-		return nil, &net.OpError{Op: "dial", Net: "tcp", Err: os.NewSyscallError("connect", syscall.ECONNREFUSED)}
-	}
-	if dst == nil || dst.dead.Load() || blocked || e.dead.Load() {
-		d := timeout
-		if n.DialFailDelay > 0 && n.DialFailDelay < d {
-			d = n.DialFailDelay
+		if dst != nil && dst.hung.Load() && !blocked {
+			n.mu.Lock()
+			n.connSeq++
+			id := n.connSeq
+			n.mu.Unlock()
+			c := newConnPair(n, id, e.Addr, dst.Addr)
+			n.mu.Lock()
+			n.conns = append(n.conns, c)
+			n.mu.Unlock()
+			return c.Dialer, nil // nobody will ever read the other end
 		}
-		if d > 0 {
-			time.Sleep(d)
+		if dst != nil && dst.closed.Load() && !dst.dead.Load() && !blocked {
+			// host up, listener gone: connection refused at once
+			return nil, &net.OpError{Op: "dial", Net: "tcp", Err: os.NewSyscallError("connect", syscall.ECONNREFUSED)}
 		}
-		return nil, &net.OpError{Op: "dial", Net: "tcp", Err: timeoutErr{"dial"}}
+		if dst != nil && !dst.dead.Load() && !blocked && !e.dead.Load() {
+			break // reachable
+		}
+		remaining := timeout - time.Since(start)
+		if n.DialFailDelay > 0 && n.DialFailDelay < timeout {
+			remaining = n.DialFailDelay - time.Since(start)
+		}
+		if remaining <= 0 {
+			return nil, &net.OpError{Op: "dial", Net: "tcp", Err: timeoutErr{"dial"}}
+		}
+		wait := backoff
+		if wait > remaining {
+			wait = remaining
+		}
+		time.Sleep(wait)
+		backoff *= 2
+		if e.closed.Load() {
+			return nil, &net.OpError{Op: "dial", Net: "tcp", Err: net.ErrClosed}
+		}
 	}
 	n.mu.Lock()
 	n.connSeq++
@@ -446,15 +462,15 @@ type Conn struct {
 
 // ConnEnd is one end (implements net.Conn).
 type ConnEnd struct {
-	c        *Conn
-	dialer   bool
-	rd, wr   *pipeHalf
-	closed   atomic.Bool
-	dlMu     sync.Mutex
+	c         *Conn
+	dialer    bool
+	rd, wr    *pipeHalf
+	closed    atomic.Bool
+	dlMu      sync.Mutex
 	rDeadline time.Time
 	wDeadline time.Time
-	dlChange chan struct{}
-	ClosedAt time.Time
+	dlChange  chan struct{}
+	ClosedAt  time.Time
 }
 
 func newConnPair(n *Net, id int, dialAddr, accAddr string) *Conn {
